@@ -80,7 +80,7 @@ def confirm(ctx, binp, ev, bad, reason, env=None, tag=""):
         again = vlib.read_ndjson(dd + "/o.ndjson")
         for b in [x for x in bad if x["t"] == tr]:
             a = again[b["i"] - 1]
-            if a["out"] == b["out"]:
+            if a["out"] == b["out"] or (b["op"].endswith(".par") and a["out"].get("panic")):
                 slim = dict(op=b["op"], t=b["t"], i=b["i"], **{"in": b["in"]})
                 slim["out"] = {k: v for k, v in b["out"].items() if k not in ("fp", "audit")}
                 slim["history"] = [dict(op=e["op"], **{"in": e["in"]}) for e in tev[:b["i"]]]
